@@ -5,6 +5,7 @@ import NfpmModel.Pax
 import NfpmModel.Cpio
 import NfpmModel.RpmHdr
 import NfpmModel.RpmFiles
+import NfpmModel.RpmRel
 import NfpmModel.Package
 import NfpmModel.Spec.PlanSpec
 import NfpmModel.Spec.PayloadSpec
@@ -373,6 +374,28 @@ def handle (op : String) (args : List String) : Except String String :=
     | some rows =>
       pure (s!"{rows.length}" ++ String.join (rows.map (fun r =>
         s!" {hex r.name} {r.size} {r.mode} {r.mtime} {hex r.digest} {hex r.linkto} {r.flags} {hex r.owner} {hex r.group}")))
+  -- rpm relations: the model of rpm.toRelation / rpmpack NewRelation, Set, AddToIndex and the self-provide
+  | "rpmrels" => do
+    let (n, v, p, d, rc, rp, sg, c) ← run1 (do
+      let n ← pBytes; let v ← pBytes
+      let p ← pList pBytes; let d ← pList pBytes; let rc ← pList pBytes; let rp ← pList pBytes; let sg ← pList pBytes; let c ← pList pBytes
+      pure (n, v, p, d, rc, rp, sg, c)) args
+    match RpmRel.cats n v p d rc rp sg c with
+    | none => pure "error"
+    | some cs =>
+      let es := RpmRel.entries cs
+      pure (s!"{es.length}" ++ String.join (es.map (fun e => s!" {e.tag} {e.typ} {e.count} {hex e.data}")))
+  | "rpmrelsread" => do
+    let pEntry : P RpmHdr.Entry := do
+      let tag ← pNat; let typ ← pNat; let count ← pNat; let data ← pBytes
+      pure { tag, typ, count, data }
+    let es ← run1 (pList pEntry) args
+    let show1 (nt vt ft : Nat) : String :=
+      match RpmRel.readRels nt vt ft es with
+      | none => "malformed"
+      | some rs => s!"{rs.length}" ++ String.join (rs.map (fun r => s!" {hex r.name} {r.sense} {hex r.version}"))
+    pure (String.intercalate " | " [show1 1047 1113 1112, show1 1090 1115 1114, show1 5049 5050 5051, show1 5046 5047 5048,
+      show1 1049 1050 1048, show1 1054 1055 1053])
   | _ => .error s!"unknown op {op}"
 
 partial def loop (hin : IO.FS.Stream) (hout : IO.FS.Stream) : IO Unit := do
